@@ -13,7 +13,7 @@ import os
 import re
 import sys
 
-ACQ = ("acquire", "acq_rel", "seq_cst", "consume_is_not_accepted")[:3]
+ACQ = ("acquire", "acq_rel", "seq_cst")      # consume is not accepted
 REL = ("release", "acq_rel", "seq_cst")
 
 
@@ -186,11 +186,7 @@ def managed_facts(path):
     m = re.search(r"ManagedThread\s*::\s*ManagedThread\s*\(", src)
     if not m:
         raise ValueError("definition of the ManagedThread constructor not found")
-    brace = None
-    # the mem-initialiser list contains braces of the lambda: take everything up to the `{` `}` pair
-    # that forms the (empty or not) constructor body = the last top-level brace group before the next
-    # top-level definition
-    i = src.index(")", m.end())
+    # skip the parameter list; what follows is the mem-initialiser list (with the lambda) and the body
     depth = 1
     j = m.end()
     while depth:
@@ -265,10 +261,29 @@ end CelmaVerif.Generated.SharedState
        lean_bool(m["orders_ok"]))
 
 
+# facts of the repaired code: written for a part whose source is not understood, so that the model the
+# theorems are proved for stays defined (and is not a stale one from another tree); translate() still
+# raises, i.e. the tie is reported broken
+FALLBACK_S = {"shape": "SOURCE NOT UNDERSTOOD - facts of the repaired code assumed", "cell": "?", "cell_type": "?",
+              "load_order": "?", "store_order": "?", "atomic": True, "load_acquire": True, "store_release": True,
+              "separate_owner": True, "final_read_shared": False}
+FALLBACK_M = {"bases": ["SOURCE NOT UNDERSTOOD - facts of the repaired code assumed"], "flag": "?", "flag_type": "?",
+              "flag_where": "?", "thread_started_in": "?", "flag_atomic": True, "flag_first": True, "orders_ok": True}
+
+
 def translate(repo, lean):
     """check.py entry point: (repo root, lean project root) -> extraction report"""
-    s = singleton_facts(os.path.join(repo, "src/celma/common/singleton.hpp"))
-    m = managed_facts(os.path.join(repo, "src/celma/common/managed_thread.hpp"))
+    errs = []
+    try:
+        s = singleton_facts(os.path.join(repo, "src/celma/common/singleton.hpp"))
+    except (ValueError, OSError) as e:
+        errs.append("singleton.hpp: %s" % e)
+        s = dict(FALLBACK_S)
+    try:
+        m = managed_facts(os.path.join(repo, "src/celma/common/managed_thread.hpp"))
+    except (ValueError, OSError) as e:
+        errs.append("managed_thread.hpp: %s" % e)
+        m = dict(FALLBACK_M)
     out = os.path.join(lean, "CelmaVerif", "Generated", "SharedState.lean")
     txt = render(s, m)
     old = open(out).read() if os.path.exists(out) else None
@@ -278,6 +293,8 @@ def translate(repo, lean):
         with open(tmp, "w") as f:
             f.write(txt)
         os.replace(tmp, out)
+    if errs:
+        raise ValueError(" | ".join(errs))
     return {"singleton": s, "managed_thread": m, "written": os.path.relpath(out, lean), "changed": old != txt}
 
 
